@@ -15,6 +15,9 @@ package zerolog
 //@ spec emitsvalue(res bytes, dst bytes) bool = lex(res) == 0 && mode(res) == aftervalue(mode(dst)) && stk(res) == stk(dst) && len(res) > len(dst) && prefix(res, dst)
 //@ spec wholevalue(b bytes) bool = len(b) >= 0
 //@ spec firstbyte(b bytes) bool = b[0] == 0xbf
+//@ spec eventdone(b bytes) bool = lex(b) == 0 && mode(b) == DONE && stk(b) == STK_EMPTY
+//@ spec framebytes() int = 1
+//@ spec arrmid() math = ARR_NEXT
 
 //@ func appendJSON(dst, j) res
 //@   props C01 C09
